@@ -558,7 +558,23 @@ pub fn mutate_line(line: &str, rng: &mut Rng) -> String {
             t[i] = rng.pick(&["A1a2", "1234", "a1a", "a1a2x", "i9i9", "e2e4qq", "é2e4", "`1a2", "a`a2", "a0a1", "a1a9", "a1`2", "e7e8K", "@1a2", "a1@2", "h8h9", " ", "a1a2a"]).to_string();
             t.join(" ")
         }
-        8 => line.to_uppercase(),
+        8 if rng.chance(1, 2) => line.to_uppercase(),
+        8 => {
+            // a character far outside ASCII whose low byte equals the ASCII character it replaces
+            // (U+0165 for 'e', U+0132 for '2', ...): must never be read as that square
+            let mut t: Vec<String> = toks.iter().map(|s| s.to_string()).collect();
+            let cands: Vec<usize> = (0..t.len()).filter(|&i| is_move_token(&t[i])).collect();
+            if cands.is_empty() {
+                t.push("\u{165}2e4".to_string());
+            } else {
+                let i = *rng.pick(&cands);
+                let chars: Vec<char> = t[i].chars().collect();
+                let k = rng.usize_below(chars.len().min(4));
+                let wide = char::from_u32(chars[k] as u32 + 0x100 * (1 + rng.below(200) as u32)).unwrap_or('\u{165}');
+                t[i] = chars.iter().enumerate().map(|(j, c)| if j == k { wide } else { *c }).collect();
+            }
+            t.join(" ")
+        }
         9 => format!("{} é ß 漢", line.trim()),
         10 if !toks.is_empty() => {
             // duplicate a go parameter with its value
